@@ -293,7 +293,18 @@ func (r *RegionScatterer) scatterRegion(region *core.RegionInfo, group string) *
 	selectedStores := make(map[uint64]struct{})
 	scatterWithSameEngine := func(peers map[uint64]*metapb.Peer, context engineContext) {
 		for _, peer := range peers {
-			candidates := r.selectCandidates(region, peer.GetStoreId(), selectedStores, context)
+			// A peer must not move onto a store that holds another peer of the region:
+			// targetPeers is keyed by store, so that peer (or this one) would be lost.
+			excludedStores := make(map[uint64]struct{}, len(selectedStores)+len(region.GetPeers()))
+			for id := range selectedStores {
+				excludedStores[id] = struct{}{}
+			}
+			for _, p := range region.GetPeers() {
+				if p.GetStoreId() != peer.GetStoreId() {
+					excludedStores[p.GetStoreId()] = struct{}{}
+				}
+			}
+			candidates := r.selectCandidates(region, peer.GetStoreId(), excludedStores, context)
 			newPeer := r.selectStore(group, peer, peer.GetStoreId(), candidates, context)
 			targetPeers[newPeer.GetStoreId()] = newPeer
 			selectedStores[newPeer.GetStoreId()] = struct{}{}
